@@ -249,8 +249,17 @@ def _size_var_bounded(lang, text, deli):
     return m.group(1) if m else None
 
 
+REM_TEXT = "(capacity_bytes - nunavutChooseMin((offset_bits / 8U), capacity_bytes))"
+REM_PH = "Pz9999z"     # stands for the remaining-bytes expression when it appears as literal text (helper macro / inline)
+
+
 def _remaining_phs(cd, p):
-    """placeholders of the path that stand for the set-block holding `capacity_bytes - min(offset_bits / 8, capacity_bytes)`"""
+    """placeholders of the path that stand for `capacity_bytes - min(offset_bits / 8, capacity_bytes)`: the set-block holding
+    it, or REM_PH where the expression appears literally (expanded helper macro, written inline)"""
+    return _remaining_block_phs(cd, p) + [REM_PH]
+
+
+def _remaining_block_phs(cd, p):
     m2 = cd.macro("c", "des", "_deserialize_composite")
     names = []
     for b in m2.find_all(cd.N.AssignBlock):
@@ -267,7 +276,7 @@ def rule_nested_bound(ctx, cd, RB):
     for lang in ("c", "cpp"):
         t = cd.tmpl(lang, "des")
         for p in cd.paths(lang, "des", "_deserialize_composite"):
-            text = cd.text(lang, p)
+            text = cd.text(lang, p).replace(REM_TEXT, REM_PH)
             deli = ("(t is DelimitedType)", True) in p.conds
             sz = _size_var_bounded(lang, text, deli)   # the variable that was bounded (header check / remaining size)
             if lang == "c":
